@@ -25,6 +25,10 @@ PANIC_GLOBS = [
     "bytes::buf::buf_impl::Buf::get_*", "bytes::buf::buf_impl::Buf::advance", "bytes::buf::buf_impl::Buf::copy_to_*", "bytes::buf::buf_impl::Buf::split_to",
     "bytes::bytes::Bytes::split_to", "bytes::bytes::Bytes::split_off", "bytes::bytes::Bytes::slice", "bytes::bytes_mut::BytesMut::split_to", "bytes::bytes_mut::BytesMut::split_off",
     "bytes::buf::buf_mut::BufMut::put_*",
+    # extern entry points with a panic precondition found by the dependency cone (C16 thorough):
+    # leopard-codec computes `shards.len() - data_shards` and `ceil_pow2(parity_shards)` (= `0 - 1` for
+    # zero parity shards) before it validates the shards
+    "leopard_codec::encode", "leopard_codec::reconstruct",
 ]
 # arithmetic operator traits are only panic-capable for non-primitive operand types that
 # document a panic (Duration, Instant, Time, tendermint Height ...); primitives use Assert
